@@ -124,7 +124,7 @@ class Models:
             if f == 'is_zero':
                 return one(('b', T.mk('feq', x, T.fconst(0))))
             const0 = {'zero': T.fconst(0), 'one': T.fconst(1), 'infinity': T.finf(), 'neg_infinity': T.fninf(), 'nan': T.fnan(),
-                      'max_value': T.fconst((2 ** 53 - 1) * 2 ** 971), 'min_value': T.fconst(-(2 ** 53 - 1) * 2 ** 971), 'epsilon': T.fconst(T.Fraction(1, 2 ** 52))}
+                      'max_value': T.mk('fmaxval'), 'min_value': T.mk('fneg', T.mk('fmaxval')), 'epsilon': T.mk('fepsilon'), 'min_positive_value': T.mk('fminpos')}
             if f in const0 and not argv:
                 return one(('f', const0[f]))
             if f == 'signum':
@@ -147,6 +147,53 @@ class Models:
             v = d(argv[0])
             return one(v)
 
+        # ---------------- thread-local cells: the cell holds an ARBITRARY value left by earlier calls (any history)
+        mm = re.match(r'(?:std::thread::)?LocalKey::<(.*)>::with::<', callee)
+        if mm:
+            key = '_tls:' + (argv[0][1] if argv[0][0] == 'opaque' else 'key')
+            loc0 = st['frames'][0]['locals']
+            if key not in loc0:
+                loc0[key] = m.symbolic_of_type(mm.group(1), 'tls')
+                self.note('thread_local cell: initial content arbitrary (whatever earlier calls on this thread left there)')
+            return m.push_closure(st, fid, d(argv[1]) if argv[1][0] == 'ref' else argv[1], [('ref', 0, key, ())])
+        if re.match(r'(?:std::cell::|core::cell::)?Cell::get$', c) or re.match(r'Cell::get$', c):
+            v = d(argv[0])
+            if v[0] == 'adt' and v[1] == 'Cell':
+                return one(v[3][0])
+        if re.match(r'(?:std::cell::|core::cell::)?Cell::(set|replace)$', c):
+            r_ = argv[0]
+            if r_[0] == 'ref':
+                old_v = d(r_)
+                m.write(st, (r_[1], r_[2]), list(r_[3]) + [0], argv[1])
+                return one(('unit',) if c.endswith('set') else old_v[3][0])
+        if re.match(r'(?:std::cell::|core::cell::)?Cell::new$', c):
+            return one(('adt', 'Cell', 0, [argv[0]]))
+        # ---------------- combinators taking closures: run the closure body
+        mm = re.match(r'(Result|Option)::(map_or|map|and_then|unwrap_or_else|map_or_else|ok_or_else|map_err)$', c)
+        if mm and argv and d(argv[0])[0] == 'adt' and d(argv[0])[1] == mm.group(1):
+            v = d(argv[0])
+            ty, meth = mm.groups()
+            good = (v[2] == 0) if ty == 'Result' else (v[2] == 1)
+            payload = v[3][0] if v[3] else ('unit',)
+            clos = lambda a: d(a) if a[0] == 'ref' else a
+            is_clos = lambda a: clos(a)[0] == 'adt' and str(clos(a)[1]).startswith('{closure@')
+            if meth == 'map_or':
+                if not good:
+                    return one(argv[1])
+                if is_clos(argv[2]):
+                    return m.push_closure(st, fid, clos(argv[2]), [payload])
+            if meth == 'map' and is_clos(argv[1]):
+                if not good:
+                    return one(v)
+                return m.push_closure(st, fid, clos(argv[1]), [payload], wrap=(ok if ty == 'Result' else some))
+            if meth == 'and_then' and is_clos(argv[1]):
+                if not good:
+                    return one(v)
+                return m.push_closure(st, fid, clos(argv[1]), [payload])
+            if meth == 'unwrap_or_else' and is_clos(argv[1]):
+                if good:
+                    return one(payload)
+                return m.push_closure(st, fid, clos(argv[1]), [payload] if ty == 'Result' else [])
         # ---------------- Option / Result / Try
         if re.match(r'Option::unwrap$', c) or re.match(r'Option::expect$', c):
             v = d(argv[0])
